@@ -62,6 +62,9 @@ class C03(Check):
                              ("setupcfg-crlf", "setup.cfg"), ("pyproject-poetry-no-deps", "pyproject.toml")):
             exps.append(dict(base, kind="fixed:" + mname, include=["pixee:python/url-sandbox"],
                              world_spec={"files": [{"path": "pkg/a.py", "snippets": [sec], "layout": {}}, {"path": fname, "manifest": names[mname]}]}))
+        for mname in ("setuppy-utf8-bom", "setuppy-utf8-bom-compact", "req-utf8-bom"):
+            exps.append(dict(base, kind="fixed:" + mname, include=["pixee:python/url-sandbox"],
+                             world_spec={"files": [{"path": "pkg/a.py", "snippets": [sec], "layout": {}}, {"path": W.manifests()[names[mname]]["file"], "manifest": names[mname]}]}))
         for ex in ("ff", "vt-in-str", "u2028-in-str", "nel-in-str", "ff-in-str", "cr-in-comment"):
             exps.append(dict(base, kind="fixed:exotic:" + ex, include=["pixee:python/remove-unnecessary-f-str"],
                              world_spec={"files": [{"path": "pkg/a.py", "snippets": [fstr], "layout": {"exotic": ex}}]}))
@@ -76,6 +79,10 @@ class C03(Check):
         exps.append(dict(base, kind="fixed:setup-py-source-and-manifest", include=["pixee:python/fix-mutable-params", "pixee:python/harden-pickle-load", "pixee:python/remove-unnecessary-f-str"],
                          world_spec={"files": [{"path": "setup.py", "raw": {"t": setup_src + "\n\ndef g(x=[]):\n    return f'y'\n"}},
                                                {"path": "pkg/a.py", "snippets": [fstr], "layout": {}}]}))
+        # a source file that is not valid UTF-8 away from the fixable construct: whatever the run does with it, the bytes on
+        # disk must be explained by the diff (the pinned tree fails to parse it and leaves it alone)
+        exps.append(dict(base, kind="fixed:not-utf8-away-from-change", include=["pixee:python/remove-unnecessary-f-str", "pixee:python/fix-mutable-params"],
+                         world_spec={"files": [{"path": "pkg/legacy.py", "raw": {"b": "ZGVmIGYoeD1bXSk6CiAgICByZXR1cm4gZidoZWxsbycKCgoKCgoKIyBjYWbpIChhIHN0cmF5IExhdGluLTEgYnl0ZSwgZmFyIGZyb20gdGhlIGNvbnN0cnVjdCkKeSA9IDEK"}}, {"path": "pkg/a.py", "snippets": [fstr], "layout": {}}]}))
         exps.append(dict(base, kind="fixed:eol-cr", include=["pixee:python/remove-unnecessary-f-str"],
                          world_spec={"files": [{"path": "pkg/a.py", "snippets": [fstr], "layout": {"eol": "cr"}}]}))
         return exps
